@@ -1,12 +1,327 @@
-import AsyncFix.Model.Session
+import AsyncFix.Lemmas.SessionStep
+import AsyncFix.Lemmas.SessionInteg
 
+/-!
+# C11 – nothing passes to or from the application outside an established session
+
+Theorems over the session model (`AsyncFix.Model.Session*`), symbolic in the counters, the journal, the
+CompIDs and the message contents.  The tie of the model to asyncfix/connection.py is the exhaustive
+single-step correspondence of harness/c11.py.
+
+* `prelogon_send_refused`   – sends before the Logon exchange are refused, connection unchanged
+* `prelogon_no_delivery`    – before a Logon has been received nothing is handed to the application
+* `prelogon_first_frame_dropped` – a first frame other than Logon drops the connection
+* `integrity_defect_*`      – per defect class: no delivery, counter unchanged, disconnected, Logout with
+                              the reason exactly when the counterparty is identifiable
+* `after_disconnect_silent` – along ANY history, no frame / message callback / state change / second
+                              report between an `on_disconnect` and the next `on_connect`
+* `disconnect_once`         – along ANY history the number of `on_disconnect` calls is the number of
+                              transitions into a disconnected state
+-/
 namespace AsyncFix.Props.C11
+
 open AsyncFix.Session AsyncFix.Generated.ConnEnum
 
-/-- a send in a state below NETWORK_CONN_ESTABLISHED is refused and leaves the connection unchanged -/
-theorem send_refused_not_connected (env : Env) (c : Conn) (m : Msg)
-    (h : c.state < st_NETWORK_CONN_ESTABLISHED) :
+/-! ## before the Logon exchange -/
+
+/-- **prelogon_send_refused.**  `send_msg` is refused with FIXConnectionError and the connection is left
+exactly as it was (state, role, both counters, journal, watchdog fields) – no sequence number is
+consumed – (a) in every state below NETWORK_CONN_ESTABLISHED, whatever the message; (b) in
+NETWORK_CONN_ESTABLISHED for everything but Logon / Logout; (c) for the initiator that has sent its
+Logon and not yet received the reply, for everything but Logout. -/
+theorem prelogon_send_refused (env : Env) (c : Conn) (m : Msg)
+    (h : c.state < st_NETWORK_CONN_ESTABLISHED ∨
+      (c.state = st_NETWORK_CONN_ESTABLISHED ∧ m.mtype ≠ mLogon ∧ m.mtype ≠ mLogout) ∨
+      (c.state = st_LOGON_INITIAL_SENT ∧ c.role = roleInitiator ∧ m.mtype ≠ mLogout)) :
     appSend env c m = (c, [.raised .connection]) := by
-  simp [appSend, sendMsg, sendGate, M.run, bind, M.bind', M.get, M.throw, h]
+  unfold appSend
+  rw [M.run_eq, sendMsg_refused env c m h]
+  rfl
+
+/-- non-vacuity: an application message on a fresh acceptor transport -/
+example (c : Conn) (hc : c.state = st_NETWORK_CONN_ESTABLISHED) :
+    appSend ⟨0, "t"⟩ c { mtype := "D", tags := [(58, "x")] } = (c, [.raised .connection]) :=
+  prelogon_send_refused _ _ _ (Or.inr (Or.inl ⟨hc, by decide, by decide⟩))
+
+/-- **prelogon_no_delivery.**  Until a Logon has been received (acceptor: NETWORK_CONN_ESTABLISHED;
+initiator: LOGON_INITIAL_SENT) no inbound frame, whatever its type, numbers or flags, is handed to
+`on_message`. -/
+theorem prelogon_no_delivery (sr : Msg → Bool) (env : Env) (c : Conn) (m : Msg)
+    (hs : c.state = st_NETWORK_CONN_ESTABLISHED ∨ c.state = st_LOGON_INITIAL_SENT) :
+    ∀ e ∈ (recv sr env c m).2, ∀ x, e ≠ .deliver x := by
+  unfold recv
+  rw [M.run_eq]
+  have h := processMessage_prelogon_ND env sr m c hs
+  intro e he x hx
+  subst hx
+  simp only [List.mem_append] at he
+  rcases he with he | he
+  · have := List.all_eq_true.mp h _ he
+    simp [notDeliver] at this
+  · unfold raisedOf at he; split at he <;> simp at he
+
+/-- **prelogon_first_frame_dropped.**  A first frame that is not a Logon (acceptor) – resp. neither
+Logon nor Logout (initiator waiting for the Logon reply) – and has no integrity defect drops the
+connection: socket closed, DISCONNECTED_BROKEN_CONN, `on_disconnect`; no reply, no callback; session
+counters and journal untouched (`discReset` / `discTail` only touch watchdog fields, socket, state). -/
+theorem prelogon_first_frame_dropped (sr : Msg → Bool) (env : Env) (c : Conn) (m : Msg)
+    (hs : (c.state = st_NETWORK_CONN_ESTABLISHED ∧ m.mtype ≠ mLogon) ∨
+      (c.state = st_LOGON_INITIAL_SENT ∧ m.mtype ≠ mLogon ∧ m.mtype ≠ mLogout))
+    (hi : integrityOf c m = .ok .good) :
+    recv sr env c m =
+      ({ c with testReqId := none, lastTime := 0, maxResend := 0, sock := false,
+                state := st_DISCONNECTED_BROKEN_CONN },
+       (if c.sock then [Effect.closeSocket] else []) ++
+         [.onState st_DISCONNECTED_BROKEN_CONN, .onDisconnect]) := by
+  unfold recv
+  rw [M.run_eq, processMessage_first_frame_dropped env sr m c hs hi]
+  cases hk : c.sock <;> simp [discTail, discReset, raisedOf, hk, st_DISCONNECTED_BROKEN_CONN, st_ACTIVE]
+
+/-! ## integrity defects -/
+
+/-- The defect classes of the property, as conditions on the decoded frame; the index is the reason
+the Logout will state (`none` = counterparty not identifiable, no Logout). -/
+inductive Defect (c : Conn) (m : Msg) : Option String → Prop
+  | beginString (bs : String) (h8 : m.get? tBeginString = some bs) (hne : bs ≠ "FIX.4.4") :
+      Defect c m (some ("Protocol BeginString(8) mismatch, expected FIX.4.4, got " ++ bs))
+  | compIdMissing (h8 : m.get? tBeginString = some "FIX.4.4")
+      (h : m.has tSenderCompID = false ∨ m.has tTargetCompID = false) : Defect c m none
+  | compIdWrong (s49 s56 : String) (h8 : m.get? tBeginString = some "FIX.4.4")
+      (h49 : m.get? tSenderCompID = some s49) (h56 : m.get? tTargetCompID = some s56)
+      (h : ¬ (c.sess.sender = s56 ∧ c.sess.target = s49)) :
+      Defect c m (some "TargetCompID / SenderCompID mismatch")
+  | seqMissing (hh : HeaderOk c m) (h34 : m.has tMsgSeqNum = false) :
+      Defect c m (some "MsgSeqNum(34) tag is missing")
+  | seqGarbled (hh : HeaderOk c m) (v : String) (h34 : m.get? tMsgSeqNum = some v) (hv : pyInt v = none) :
+      Defect c m (some "MsgSeqNum(34) is not a number")
+  | seqTooLow (hh : HeaderOk c m) (v : String) (n : Int) (h34 : m.get? tMsgSeqNum = some v)
+      (hv : pyInt v = some n) (hlow : n < c.sess.nextIn)
+      -- the code's two documented tolerances: SequenceReset, and retransmitted duplicates while a
+      -- resend is awaited
+      (hnr : m.mtype ≠ mSequenceReset)
+      (hna : ¬ (c.state = st_RESENDREQ_AWAITING ∧ m.get? tPossDupFlag = some "Y")) :
+      Defect c m (some ("MsgSeqNum is too low, expected " ++ pyStr c.sess.nextIn ++ ", got " ++ pyStr n))
+
+theorem defect_verdict {c : Conn} {m : Msg} {r : Option String} (d : Defect c m r) :
+    integrityOf c m = .ok (match r with | none => .critical | some t => .reason t) := by
+  cases d with
+  | beginString bs h8 hne => exact integrity_begin_string c m bs h8 hne
+  | compIdMissing h8 h => exact integrity_compid_missing c m h8 h
+  | compIdWrong s49 s56 h8 h49 h56 h => exact integrity_compid_wrong c m s49 s56 h8 h49 h56 h
+  | seqMissing hh h34 => exact integrity_seq_missing c m hh h34
+  | seqGarbled hh v h34 hv => exact integrity_seq_garbled c m hh v h34 hv
+  | seqTooLow hh v n h34 hv hlow hnr hna => exact integrity_seq_too_low c m hh v n h34 hv hlow hnr hna
+
+/-- frames written by a trace -/
+def writesOf : List Effect → List Msg
+  | [] => []
+  | .write f :: r => f :: writesOf r
+  | _ :: r => writesOf r
+
+/-- **integrity_defect (counterparty not identifiable).**  A frame without SenderCompID or TargetCompID,
+in any connected state: not delivered, inbound counter and journal untouched, NOTHING written, socket
+closed, DISCONNECTED_BROKEN_CONN, one `on_disconnect`. -/
+theorem integrity_defect_unidentifiable (sr : Msg → Bool) (env : Env) (c : Conn) (m : Msg)
+    (d : Defect c m none) (hc : isDisc c.state = false) :
+    recv sr env c m =
+      ({ c with testReqId := none, lastTime := 0, maxResend := 0, sock := false,
+                state := st_DISCONNECTED_BROKEN_CONN },
+       (if c.sock then [Effect.closeSocket] else []) ++
+         [.onState st_DISCONNECTED_BROKEN_CONN, .onDisconnect]) := by
+  unfold recv
+  rw [M.run_eq, processMessage_critical env sr m c hc (defect_verdict d)]
+  cases hk : c.sock <;> simp [discTail, discReset, raisedOf, hk, st_DISCONNECTED_BROKEN_CONN, st_ACTIVE]
+
+/-- **integrity_defect (identifiable counterparty).**  Wrong BeginString, wrong / swapped CompIDs,
+MsgSeqNum missing, not a number, or too low – received in a state from which `send_msg` accepts a
+Logout (`≥ NETWORK_CONN_ESTABLISHED`), with a transport, CompIDs / reason representable as single
+bytes and the next outbound number free in the journal:
+the frame is not delivered, the inbound counter does not move, exactly one frame is written – a
+Logout whose Text(58) is the reason –, then the socket is closed, the state is
+DISCONNECTED_BROKEN_CONN and `on_disconnect` is called once. -/
+theorem integrity_defect_logout (sr : Msg → Bool) (env : Env) (c : Conn) (m : Msg) (text : String)
+    (d : Defect c m (some text)) (j : Journal)
+    (h6 : st_NETWORK_CONN_ESTABLISHED ≤ c.state) (hsock : c.sock = true)
+    (hl : frameLatin1 (logoutFrame env c text) = true)
+    (hp : c.journal.persist .outbound c.sess.nextOut (logoutFrame env c text) = some j) :
+    (recv sr env c m).1.state = st_DISCONNECTED_BROKEN_CONN ∧ (recv sr env c m).1.sock = false ∧
+      (recv sr env c m).1.sess.nextIn = c.sess.nextIn ∧ (recv sr env c m).1.journal.inb = c.journal.inb ∧
+      (recv sr env c m).1.sess.nextOut = c.sess.nextOut + 1 ∧
+      (∀ e ∈ (recv sr env c m).2, ∀ x, e ≠ .deliver x) ∧
+      writesOf (recv sr env c m).2 = [logoutFrame env c text] ∧ nDisc (recv sr env c m).2 = 1 ∧
+      (logoutFrame env c text).mtype = mLogout ∧
+      (text ≠ "" → (logoutFrame env c text).get? tText = some text) := by
+  have hrecv : recv sr env c m =
+      ((discTail (afterLogout (discReset c) j) st_DISCONNECTED_BROKEN_CONN).1,
+       ((if c.state = st_NETWORK_CONN_ESTABLISHED then [Effect.onState st_LOGON_INITIAL_SENT] else [])
+          ++ [.write (logoutFrame env c text)])
+          ++ (discTail (afterLogout (discReset c) j) st_DISCONNECTED_BROKEN_CONN).2) := by
+    unfold recv
+    rw [M.run_eq, processMessage_reason_eval env sr m c text j (defect_verdict d) h6 hsock hl hp]
+    simp [raisedOf]
+  have hj : j.inb = c.journal.inb := by
+    simp only [Journal.persist] at hp
+    cases hins : c.journal.out.insert c.sess.nextOut (logoutFrame env c text) with
+    | none => rw [hins] at hp; simp at hp
+    | some r => rw [hins] at hp; simp at hp; rw [← hp]
+  rw [hrecv]
+  refine ⟨rfl, rfl, ?_, ?_, ?_, ?_, ?_, ?_, rfl, ?_⟩
+  · simp only [discTail, afterLogout, discReset]
+    by_cases hs : c.state = st_NETWORK_CONN_ESTABLISHED <;> simp [hs]
+  · simp only [discTail, afterLogout, discReset]; exact hj
+  · simp only [discTail, afterLogout, discReset]
+    by_cases hs : c.state = st_NETWORK_CONN_ESTABLISHED <;> simp [hs]
+  · intro e he x hx
+    subst hx
+    simp only [discTail] at he
+    by_cases hs : c.state = st_NETWORK_CONN_ESTABLISHED <;> simp [hs] at he <;> split at he <;> simp at he
+  · simp only [discTail, afterLogout, discReset, hsock]
+    split <;> simp [writesOf]
+  · simp only [discTail, afterLogout, discReset, hsock]
+    split <;> simp [nDisc]
+  · intro hne
+    have hne' : (text == "") = false := by simpa using hne
+    simp [logoutFrame, buildFrame, bodyFields, logoutMsg, Msg.mk', Msg.get?, Msg.lookup, hne', tText, tBeginString,
+      tBodyLength, tMsgType, tSenderCompID, tTargetCompID, tMsgSeqNum, tSendingTime]
+
+/-! ### non-vacuity: a concrete established session receiving a frame without MsgSeqNum -/
+
+def exConn : Conn :=
+  { state := st_ACTIVE, role := roleInitiator, wasActive := true, sock := true,
+    sess := { sender := "S", target := "T", nextIn := 5, nextOut := 7 } }
+
+def exFrame : Msg :=
+  Msg.ofFields [(8, "FIX.4.4"), (9, "21"), (35, "D"), (49, "T"), (56, "S"), (52, "t"), (58, "hi"), (10, "000")]
+
+example : Defect exConn exFrame (some "MsgSeqNum(34) tag is missing") :=
+  .seqMissing ⟨rfl, rfl, rfl⟩ rfl
+
+example (sr : Msg → Bool) (env : Env) (hl : frameLatin1 (logoutFrame env exConn "MsgSeqNum(34) tag is missing") = true) :
+    (recv sr env exConn exFrame).1.state = st_DISCONNECTED_BROKEN_CONN ∧
+      (recv sr env exConn exFrame).1.sess.nextIn = 5 ∧
+      writesOf (recv sr env exConn exFrame).2 = [logoutFrame env exConn "MsgSeqNum(34) tag is missing"] := by
+  have h := integrity_defect_logout sr env exConn exFrame _ (.seqMissing ⟨rfl, rfl, rfl⟩ rfl)
+    _ (by decide) rfl hl rfl
+  exact ⟨h.1, h.2.2.1, h.2.2.2.2.2.2.1⟩
+
+/-! ## after a disconnect: silence -/
+
+/-- One step from a disconnected state: nothing loud (no frame written, no `on_message` / `on_logon` /
+`on_logout`), whatever the event. -/
+theorem disconnected_step_silent (sr : Msg → Bool) (c : Conn) (ev : Event)
+    (hc : isDisc c.state = true) : ∀ e ∈ (step sr c ev).2, e.loud = false := by
+  cases hh : handler sr ev with
+  | none =>
+    cases ev <;> simp [handler] at hh
+    case connected k => exact (connected_effects c k).2.2
+  | some x =>
+    rcases step_handler hh c with h | h
+    · rw [h]; exact calm_not_loud (run_calm (handler_specs hh).2.1 c hc).1
+    · rw [h]; intro e he; cases he
+
+/-- … and only a new transport leaves the disconnected states. -/
+theorem disconnected_stays (sr : Msg → Bool) (c : Conn) (ev : Event) (hc : isDisc c.state = true)
+    (hev : ∀ k, ev ≠ .connected k) : isDisc (step sr c ev).1.state = true := by
+  cases hh : handler sr ev with
+  | none => cases ev <;> simp [handler] at hh; exact absurd rfl (hev _)
+  | some x =>
+    rcases step_handler hh c with h | h
+    · rw [h]; exact (run_calm (handler_specs hh).2.1 c hc).2
+    · rw [h]; exact hc
+
+/-- **after_disconnect_silent.**  Along any history, from any start state: between an `onDisconnect`
+and the next `onConnect` (and from the start, when the start state is a disconnected one) the trace
+contains no frame, no message / logon / logout callback, no state change and no further
+`onDisconnect`. -/
+theorem after_disconnect_silent (sr : Msg → Bool) (c : Conn) (evs : List Event) :
+    quiet (isDisc c.state) (run sr c evs).2 = true := by
+  induction evs generalizing c with
+  | nil => rfl
+  | cons ev rest ih =>
+    obtain ⟨h1, h2⟩ := step_stepQ sr c ev
+    have ih' := ih (step sr c ev).1
+    show quiet (isDisc c.state) ((step sr c ev).2 ++ (run sr (step sr c ev).1 rest).2) = true
+    rw [quiet_append, h1, Bool.true_and]
+    cases hf : flagAfter (isDisc c.state) (step sr c ev).2 with
+    | true => rw [h2 hf] at ih'; exact ih'
+    | false => exact quiet_mono ih'
+
+/-! ## the disconnect is reported exactly once -/
+
+/-- One step, every event but transport set-up: exactly one `on_disconnect` when the step takes the
+connection from a connected into a disconnected state, none otherwise. -/
+theorem disconnect_once_step (sr : Msg → Bool) (c : Conn) (ev : Event) (hev : ∀ k, ev ≠ .connected k) :
+    nDisc (step sr c ev).2 = if !isDisc c.state && isDisc (step sr c ev).1.state then 1 else 0 := by
+  cases hh : handler sr ev with
+  | none => cases ev <;> simp [handler] at hh; exact absurd rfl (hev _)
+  | some x =>
+    obtain ⟨hq, hcalm, hab⟩ := handler_specs hh
+    rcases step_handler hh c with h | h
+    · rw [h]
+      cases hc : isDisc c.state with
+      | true => rw [calm_nDisc (run_calm hcalm c hc).1]; rfl
+      | false =>
+        obtain ⟨hqu, hfl⟩ := run_flag_eq hq c hc
+        rw [quiet_nDisc (run_AB hab c).2.1 false hqu, hfl]
+        simp
+    · rw [h]; cases isDisc c.state <;> rfl
+
+/-- transport set-up never reports a disconnect -/
+theorem connected_no_disconnect (c : Conn) (k : ConnKind) : nDisc (connected c k).2 = 0 :=
+  (connected_effects c k).1
+
+/-- every event: the `on_disconnect` calls are the transitions into a disconnected state that
+`on_state_change` reports -/
+theorem disconnect_once_step_reported (sr : Msg → Bool) (c : Conn) (ev : Event) :
+    nDisc (step sr c ev).2 = nTrans c.state (step sr c ev).2 := by
+  cases hh : handler sr ev with
+  | none =>
+    cases ev <;> simp [handler] at hh
+    case connected k =>
+      show nDisc (connected c k).2 = nTrans c.state (connected c k).2
+      rw [(connected_effects c k).1, (connected_effects c k).2.1]
+  | some x =>
+    rcases step_handler hh c with h | h
+    · rw [h]; exact (run_AB (handler_specs hh).2.2 c).1
+    · rw [h]; rfl
+
+/-- transports only come up while the connection is in a disconnected state (how the client uses
+`connect()`: it refuses while a reader exists) -/
+def connectsWhenDisc (sr : Msg → Bool) : Conn → List Event → Prop
+  | _, [] => True
+  | c, ev :: rest => (∀ k, ev = .connected k → isDisc c.state = true) ∧
+      connectsWhenDisc sr (step sr c ev).1 rest
+
+/-- number of steps of a history that take the connection from a connected into a disconnected state -/
+def entries (sr : Msg → Bool) : Conn → List Event → Nat
+  | _, [] => 0
+  | c, ev :: rest =>
+    (if !isDisc c.state && isDisc (step sr c ev).1.state then 1 else 0) + entries sr (step sr c ev).1 rest
+
+/-- **disconnect_once.**  Along any history, from any start state, the number of `on_disconnect` calls
+equals the number of steps that enter a disconnected state from a connected one. -/
+theorem disconnect_once (sr : Msg → Bool) (c : Conn) (evs : List Event)
+    (h : connectsWhenDisc sr c evs) : nDisc (run sr c evs).2 = entries sr c evs := by
+  induction evs generalizing c with
+  | nil => rfl
+  | cons ev rest ih =>
+    obtain ⟨hk, hrest⟩ := h
+    show nDisc ((step sr c ev).2 ++ (run sr (step sr c ev).1 rest).2) = _
+    rw [nDisc_append, ih _ hrest]
+    show _ = (if !isDisc c.state && isDisc (step sr c ev).1.state then 1 else 0) + _
+    congr 1
+    by_cases hev : ∃ k, ev = .connected k
+    · obtain ⟨k, rfl⟩ := hev
+      have hc := hk k rfl
+      show nDisc (connected c k).2 = _
+      rw [connected_no_disconnect, hc]; rfl
+    · exact disconnect_once_step sr c ev (fun k hk => hev ⟨k, hk⟩)
+
+/-- non-vacuity: a transport comes up and is lost again – one transition, one report -/
+example (sr : Msg → Bool) (env : Env) (c : Conn) (hc : c.state = st_DISCONNECTED_NOCONN_TODAY) :
+    nDisc (run sr c [.connected .acceptor, .eof env]).2 = entries sr c [.connected .acceptor, .eof env] := by
+  apply disconnect_once
+  simp only [connectsWhenDisc, and_true]
+  exact ⟨fun _ _ => by rw [hc]; rfl, fun _ h => by cases h⟩
 
 end AsyncFix.Props.C11
